@@ -477,6 +477,78 @@ func optionSemantics(w *World, r *Report, prop string) {
 			}
 		}
 	}
+	// memberName: how the facts name member i of a Configuration / Padding record ("" for any other record, and for members that
+	// are not option values)
+	memberName := func(t types.Type, i int) (string, types.Type) {
+		if pt, isPtr := t.Underlying().(*types.Pointer); isPtr {
+			t = pt.Elem()
+		}
+		tn := modelTypeName(t)
+		st, isSt := t.Underlying().(*types.Struct)
+		if !isSt || i >= st.NumFields() || (tn != "Configuration" && tn != "Padding") {
+			return "", nil
+		}
+		name := st.Field(i).Name()
+		if tn == "Padding" {
+			name = "Padding." + name
+		}
+		if name == "Padding" {
+			return "", nil
+		}
+		return name, st.Field(i).Type()
+	}
+	zeroOf := func(fa *facts, t types.Type) {
+		switch {
+		case isStringType(t):
+			fa.consts[`""`] = true
+		case types.Identical(t.Underlying(), types.Typ[types.Bool]):
+			fa.consts["false"] = true
+		}
+	}
+	// wholeRecordStore: a Configuration / Padding that is assigned as a whole. A copy of a package-level record of defaults (assigned
+	// once by the initialiser, never written again) gives each member what that record's literal gives it; the zero record gives the
+	// zero values; a copy of a local literal adds nothing (its member stores are seen where they are made); anything else is a value
+	// the rule cannot name.
+	wholeRecordStore := func(st *ssa.Store, bs bindings) {
+		pt, isPtr := st.Addr.Type().Underlying().(*types.Pointer)
+		if !isPtr {
+			return
+		}
+		rec, isSt := pt.Elem().Underlying().(*types.Struct)
+		if tn := modelTypeName(pt.Elem()); !isSt || (tn != "Configuration" && tn != "Padding") {
+			return
+		}
+		var members map[int]ssa.Value
+		known := false
+		switch v := stripIdentity(st.Val).(type) {
+		case *ssa.Const:
+			members, known = map[int]ssa.Value{}, true
+		case *ssa.UnOp:
+			if v.Op != token.MUL {
+				break
+			}
+			switch src := v.X.(type) {
+			case *ssa.Global:
+				members, known = w.globalRecordInit(src)
+			case *ssa.Alloc:
+				return
+			}
+		}
+		for i := 0; i < rec.NumFields(); i++ {
+			name, ft := memberName(pt.Elem(), i)
+			if name == "" {
+				continue
+			}
+			switch {
+			case !known:
+				get(name).consts["<a record copied from elsewhere>"] = true
+			case members[i] == nil:
+				zeroOf(get(name), ft)
+			default:
+				flow(members[i], bs, get(name), 0, map[ssa.Value]bool{})
+			}
+		}
+	}
 	type storeSite struct {
 		fn  *ssa.Function
 		blk *ssa.BasicBlock
@@ -499,16 +571,24 @@ func optionSemantics(w *World, r *Report, prop string) {
 	if len(envs) > 1 {
 		envs = envs[1:]
 	}
+	visited := []*ssa.Function{}
+	isVisited := map[*ssa.Function]bool{}
 	for _, env = range envs {
 		seenFn := map[*ssa.Function]bool{nc: true}
 		work := []job{{nc, bindings{}}}
 		for i := 0; i < len(work) && i < 16; i++ {
 			j := work[i]
+			if !isVisited[j.fn] {
+				isVisited[j.fn] = true
+				visited = append(visited, j.fn)
+			}
 			forEachInstr(j.fn, func(b *ssa.BasicBlock, ins ssa.Instruction) {
 				switch x := ins.(type) {
 				case *ssa.Store:
 					fa, ok := x.Addr.(*ssa.FieldAddr)
 					if !ok {
+						// the record written as a whole: `padding := defaultPadding`
+						wholeRecordStore(x, j.bs)
 						return
 					}
 					tn, f, _, _ := fieldOf(fa)
@@ -554,7 +634,8 @@ func optionSemantics(w *World, r *Report, prop string) {
 	}
 	env = nil
 	// a member the literal does not mention starts as the zero value of its type: that is the constant that reaches it by default
-	forEachInstr(nc, func(b *ssa.BasicBlock, ins ssa.Instruction) {
+	// (the literal may be in a helper that builds the defaults: every function the walk above has entered is looked at)
+	zeroScan := func(b *ssa.BasicBlock, ins ssa.Instruction) {
 		al, ok := ins.(*ssa.Alloc)
 		if !ok || al.Referrers() == nil {
 			return
@@ -568,6 +649,12 @@ func optionSemantics(w *World, r *Report, prop string) {
 			return
 		}
 		set := map[int]bool{}
+		for _, ref := range *al.Referrers() {
+			// a record that is assigned as a whole starts as what it is assigned (wholeRecordStore)
+			if s0, isSt := ref.(*ssa.Store); isSt && s0.Addr == ssa.Value(al) && s0.Block() == b {
+				return
+			}
+		}
 		for _, ref := range *al.Referrers() {
 			fa, ok := ref.(*ssa.FieldAddr)
 			if !ok || fa.Referrers() == nil {
@@ -594,7 +681,10 @@ func optionSemantics(w *World, r *Report, prop string) {
 				get(name).consts["false"] = true
 			}
 		}
-	})
+	}
+	for _, vf := range visited {
+		forEachInstr(vf, zeroScan)
+	}
 	// which configuration fields exist (a renamed field is reported as not judged rather than guessed)
 	exists := map[string]bool{}
 	if mp := w.ByPath[modPath+"/internal/model"]; mp != nil {
@@ -771,11 +861,15 @@ func c12OptionValidation(w *World, r *Report, prop string) {
 			} else {
 				lk, _ = stripIdentity(c.Call.Args[0]).(*ssa.Lookup)
 			}
-			if lk == nil || lk.X.Type().Underlying().String() != "map[string][]string" {
-				return
-			}
-			if _, isGlobal := valueRoot(lk.X).(*ssa.Global); !isGlobal {
-				return
+			// ... or the list member of the row a lookup by name has found in the package-level table of options
+			_, ofRow := w.listOfFoundRow(c.Call.Args[0])
+			if !ofRow {
+				if lk == nil || lk.X.Type().Underlying().String() != "map[string][]string" {
+					return
+				}
+				if _, isGlobal := valueRoot(lk.X).(*ssa.Global); !isGlobal {
+					return
+				}
 			}
 			n++
 			key := fmt.Sprintf("%s rejects exactly the values that are not in the option's list", fnKey(fn))
@@ -830,7 +924,7 @@ func c12OptionValidation(w *World, r *Report, prop string) {
 					if cond == nil {
 						continue
 					}
-					if op, nonEmptySucc, ok := lenGtZero(cond); ok && stripIdentity(op) == stripIdentity(c.Call.Args[0]) && edgeDominates(bb, nonEmptySucc, b) {
+					if op, nonEmptySucc, ok := lenGtZero(cond); ok && (stripIdentity(op) == stripIdentity(c.Call.Args[0]) || w.sameFoundRowList(op, c.Call.Args[0])) && edgeDominates(bb, nonEmptySucc, b) {
 						emptyOK = true
 					}
 				}
@@ -880,11 +974,13 @@ func c12OptionValidation(w *World, r *Report, prop string) {
 			case *ssa.Lookup:
 				lk = x
 			}
-			if lk == nil || lk.X.Type().Underlying().String() != "map[string][]string" {
-				return
-			}
-			if _, isGlobal := valueRoot(lk.X).(*ssa.Global); !isGlobal {
-				return
+			if _, ofRow := w.listOfFoundRow(ia.X); !ofRow {
+				if lk == nil || lk.X.Type().Underlying().String() != "map[string][]string" {
+					return
+				}
+				if _, isGlobal := valueRoot(lk.X).(*ssa.Global); !isGlobal {
+					return
+				}
 			}
 			n++
 			key := fmt.Sprintf("%s rejects exactly the values that are not in the option's list", fnKey(fn))
